@@ -174,19 +174,28 @@ func c04(r *core.Run) {
 							for _, b := range callee.Blocks {
 								for _, in := range b.Instrs {
 									if al, ok := in.(*ssa.Alloc); ok && core.TypeName(al.Type()) == "x/storage/types.PaymentGauge" {
-										cp := p.ProvOf(al, ".Coins").DataAtoms()
-										okc := len(cp) == 1 && cp[0].Kind == "param"
-										// and it is the parameter itself, not a value computed from it
+										// the record that is built here: the parameter itself, or — when a gauge with the same
+										// id already exists — the parameter added to that gauge's recorded coins (merge)
+										okc, nStores := true, 0
 										for _, ref := range *al.Referrers() {
 											if fa, ok := ref.(*ssa.FieldAddr); ok && core.FieldName(fa.X.Type(), fa.Field) == "Coins" {
 												for _, rr := range *fa.Referrers() {
-													if st, ok := rr.(*ssa.Store); ok && st.Addr == fa {
-														if _, isParam := st.Val.(*ssa.Parameter); !isParam {
-															okc = false
-														}
+													st, ok := rr.(*ssa.Store)
+													if !ok || st.Addr != fa {
+														continue
+													}
+													nStores++
+													if _, isParam := st.Val.(*ssa.Parameter); isParam {
+														continue
+													}
+													if !mergesExisting(p, st.Val, callee, o) {
+														okc = false
 													}
 												}
 											}
+										}
+										if nStores == 0 {
+											continue // a record only decoded here (the existing gauge), not the one written
 										}
 										r.Check(okc, "C04/R2", "gauge-constructor:records-argument", p.InstrPos(o.Instr), "PaymentGauge.Coins ⊵ constructor argument only", "the gauge constructor records something other than the coins it is given")
 									}
@@ -445,6 +454,52 @@ func blockReaches(from, to *ssa.BasicBlock) bool {
 			return true
 		}
 		stack = append(stack, b.Succs...)
+	}
+	return false
+}
+
+// mergesExisting: v = existing.Coins.Add(param...) where existing was decoded from the record stored under the key
+// that the constructor writes (set).
+func mergesExisting(p *core.Program, v ssa.Value, ctor *ssa.Function, set *core.StoreOp) bool {
+	c, ok := v.(*ssa.Call)
+	if !ok || !strings.HasSuffix(core.CalleeFullName(c), "types.Coins).Add") || len(c.Call.Args) != 2 {
+		return false
+	}
+	// the added coins are exactly the constructor's coins parameter
+	added := c.Call.Args[1]
+	for i := 0; i < 3; i++ {
+		if ct, ok := added.(*ssa.ChangeType); ok {
+			added = ct.X
+		} else if cv, ok := added.(*ssa.Convert); ok {
+			added = cv.X
+		}
+	}
+	if sl, ok := added.(*ssa.Parameter); !ok || sl.Parent() != ctor {
+		va := core.VarArgs(added)
+		if len(va) == 0 {
+			return false
+		}
+		for _, a := range va {
+			if _, isParam := a.(*ssa.Parameter); !isParam {
+				return false
+			}
+		}
+	}
+	// the receiver comes from a record read under the same key
+	tb := core.NewTermBuilder(p)
+	setKey := tb.Term(set.Key)
+	for _, o := range p.StoreOps(ctor) {
+		if o.Kind == "Get" && o.Module+"/"+o.Prefix == set.Module+"/"+set.Prefix && tb.Term(o.Key) == setKey {
+			// the receiver is the Coins field of a record decoded in this constructor
+			if u, ok := c.Call.Args[0].(*ssa.UnOp); ok {
+				if fa, ok := u.X.(*ssa.FieldAddr); ok && core.FieldName(fa.X.Type(), fa.Field) == "Coins" {
+					if al, ok := fa.X.(*ssa.Alloc); ok && core.TypeName(al.Type()) == "x/storage/types.PaymentGauge" {
+						return true
+					}
+				}
+			}
+			return false
+		}
 	}
 	return false
 }
